@@ -10,17 +10,16 @@ using namespace mc;
 using namespace qc;
 
 // exact expectation check on a distribution for one slot: sum_leaf p * n * rank_leaf(v) == true count, both criteria
+template<class Fam> struct LeafView { double prob; typename QuantSys<Fam>::State* st; uint64_t dmin, dmax; };
 template<class Fam>
-static void unbiased_check(ProbTree<QuantSys<Fam> >& pt, QuantSys<Fam>& sys, const std::vector<Leaf>& d, int slot, Report& rep, const std::string& hist) {
+static void unbiased_core(QuantSys<Fam>& sys, const std::vector<LeafView<Fam> >& d, int slot, Report& rep, const std::string& hist) {
   typedef typename Fam::Item T; typename Fam::Cmp cmp;
   if (d.empty()) return;
   std::vector<T> grid = sys.query_grid(); std::sort(grid.begin(), grid.end(), cmp);
   std::vector<double> ei(grid.size(), 0), ee(grid.size(), 0); double mass = 0; std::vector<T> model; uint64_t dmin = ~0ull, dmax = 0;
-  std::vector<double> exact_claim_wrong(grid.size(), 0);
   for (size_t i = 0; i < d.size(); ++i) {
-    std::unique_ptr<typename QuantSys<Fam>::State> s = pt.replay(d[i].hist, nullptr);
-    const typename Fam::Sk& sk = *s->slots[slot].sk; model = s->slots[slot].model;
-    mass += d[i].prob; dmin = std::min(dmin, d[i].draws_min); dmax = std::max(dmax, d[i].draws_max);
+    const typename Fam::Sk& sk = *d[i].st->slots[slot].sk; model = d[i].st->slots[slot].model;
+    mass += d[i].prob; dmin = std::min(dmin, d[i].dmin); dmax = std::max(dmax, d[i].dmax);
     if (sk.is_empty()) continue;
     for (size_t g = 0; g < grid.size(); ++g) { ei[g] += d[i].prob * sk.get_rank(grid[g], true) * sk.get_n(); ee[g] += d[i].prob * sk.get_rank(grid[g], false) * sk.get_n(); }
   }
@@ -37,6 +36,100 @@ static void unbiased_check(ProbTree<QuantSys<Fam> >& pt, QuantSys<Fam>& sys, con
   rep.flush_ctx_fails(c.fails, sys.name(), hist);
   rep.evaluations++; rep.count("histories_checked"); rep.count("flips_summed_over_checked_histories", (double)dmax);
   rep.outcome(std::string(Fam::fam()) + "|leaves" + str(d.size() > 1 ? (d.size() > 8 ? ">8" : "2-8") : "1") + "|flips" + str(dmax > 0 ? (dmax > 4 ? ">4" : "1-4") : "0"));
+}
+template<class Fam>
+static void unbiased_check(ProbTree<QuantSys<Fam> >& pt, QuantSys<Fam>& sys, const std::vector<Leaf>& d, int slot, Report& rep, const std::string& hist) {
+  std::vector<std::unique_ptr<typename QuantSys<Fam>::State> > keep; std::vector<LeafView<Fam> > v;
+  for (size_t i = 0; i < d.size(); ++i) { keep.push_back(pt.replay(d[i].hist, nullptr)); LeafView<Fam> l; l.prob = d[i].prob; l.st = keep.back().get(); l.dmin = d[i].draws_min; l.dmax = d[i].draws_max; v.push_back(l); }
+  unbiased_core<Fam>(sys, v, slot, rep, hist);
+}
+// long fixed histories: live states cloned instead of replayed (mc::LiveTree)
+template<class Fam>
+static void live_history(QuantSys<Fam> sys, const std::vector<std::string>& opseq, int slot, size_t check_stride, Report& rep, const Config& cfg) {
+  if (!cfg.replay_scenario.empty() && cfg.replay_scenario != sys.name()) return;
+  std::map<std::string, size_t> idx; for (size_t i = 0; i < sys.nops(); ++i) idx[sys.opname(i)] = i;
+  LiveTree<QuantSys<Fam> > lt(sys, rep, 64, 1u << 20);
+  std::vector<typename LiveTree<QuantSys<Fam> >::LLeaf> d = lt.root(); std::string hs; size_t maxleaves = 1, done = 0;
+  for (size_t i = 0; i < opseq.size(); ++i) {
+    if (!idx.count(opseq[i])) { fprintf(stderr, "HARNESS-ERROR unknown op %s in %s\n", opseq[i].c_str(), sys.name().c_str()); abort(); }
+    if (rep.past_deadline()) { rep.cap("global deadline reached in " + sys.name() + " after " + str(i) + " of " + str(opseq.size()) + " operations"); break; }
+    d = lt.step(d, idx[opseq[i]]); ++done;
+    hs += (i ? ";" : "") + opseq[i]; maxleaves = std::max(maxleaves, d.size());
+    if ((i + 1) % check_stride == 0 || i + 1 == opseq.size()) {
+      // queries build caches and sort level 0: they are put to clones, never to the live states the exploration continues from
+      std::vector<std::unique_ptr<typename QuantSys<Fam>::State> > keep;
+      std::vector<LeafView<Fam> > v; for (size_t k = 0; k < d.size(); ++k) { keep.emplace_back(sys.clone(*d[k].st)); LeafView<Fam> l; l.prob = d[k].prob; l.st = keep.back().get(); l.dmin = d[k].draws_min; l.dmax = d[k].draws_max; v.push_back(l); }
+      unbiased_core<Fam>(sys, v, slot, rep, hs.size() > 200 ? "n=" + str(i + 1) + " prefix of " + sys.name() : hs);
+    }
+    if (d.size() > 200000) { rep.cap("leaf cap 200000 reached in " + sys.name() + " after " + str(i + 1) + " operations"); break; }
+  }
+  lt.account();
+  rep.scenarios.push_back(sys.name() + ": ops=" + str(done) + " max_merged_leaves=" + str(maxleaves) + " raw_outcomes=" + str(lt.raw_leaves) + " clones=" + str(lt.clones) + " [live]");
+  if (lt.draws_outcome_dependent) rep.violation("C08|" + sys.name() + "|flips-per-operation-independent-of-outcomes", "an operation consumed a different number of coin flips on different outcomes", sys.name(), lt.draws_witness);
+}
+
+// One-step martingale check along long histories: from every state visited under a fixed coin schedule, the complete set of
+// outcomes of the NEXT operation is enumerated and E[n * rank_after(v)] must equal n * rank_before(v) plus the operation's own
+// contribution (the new item, or the merged operand's n * rank). Unbiasedness over all coin flips follows by induction over the
+// steps for the states visited; the cost is linear in the stream length, so streams long enough to grow many levels are covered.
+template<class Fam>
+static void martingale_history(QuantSys<Fam> sys, const std::vector<std::string>& opseq, uint64_t schedule, Report& rep, const Config& cfg) {
+  typedef typename Fam::Item T; typename Fam::Cmp cmp; typedef typename QuantSys<Fam>::State State;
+  if (!cfg.replay_scenario.empty() && cfg.replay_scenario != sys.name()) return;
+  case_timeout_s() = 300;   // one step enumerates every outcome of one operation
+  std::map<std::string, size_t> idx; for (size_t i = 0; i < sys.nops(); ++i) idx[sys.opname(i)] = i;
+  std::vector<T> grid = sys.query_grid(); std::sort(grid.begin(), grid.end(), cmp);
+  std::unique_ptr<State> cur(sys.make()); const size_t NS = cur->slots.size();
+  auto ranks = [&](State& st, std::vector<std::vector<double> >& out) {   // n * rank per slot, on a clone (queries mutate caches)
+    std::unique_ptr<State> q(sys.clone(st)); out.assign(NS, std::vector<double>(2 * grid.size(), 0.0));
+    for (size_t sl = 0; sl < NS; ++sl) { const typename Fam::Sk& sk = *q->slots[sl].sk; if (sk.is_empty()) continue;
+      for (size_t g = 0; g < grid.size(); ++g) { out[sl][2 * g] = sk.get_rank(grid[g], true) * sk.get_n(); out[sl][2 * g + 1] = sk.get_rank(grid[g], false) * sk.get_n(); } }
+  };
+  uint64_t steps = 0, coin_steps = 0, max_outcomes = 1; ChoiceStats cst;
+  for (size_t i = 0; i < opseq.size(); ++i) {
+    if (!idx.count(opseq[i])) { fprintf(stderr, "HARNESS-ERROR unknown op %s in %s\n", opseq[i].c_str(), sys.name().c_str()); abort(); }
+    if (rep.past_deadline()) { rep.cap("global deadline reached in " + sys.name() + " after " + str(i) + " of " + str(opseq.size()) + " operations"); break; }
+    const size_t op = idx[opseq[i]]; const typename QuantSys<Fam>::Op& o = sys.ops[op];
+    const std::string hs = "step" + str(i) + ":" + opseq[i] + "/schedule" + str(schedule);
+    if (!journal(sys.name(), hs)) continue;
+    std::vector<std::vector<double> > before; ranks(*cur, before);
+    std::vector<std::vector<double> > expect = before;
+    if (o.kind == 'U') { const T x = sys.vals[o.b]; for (size_t g = 0; g < grid.size(); ++g) { if (!cmp(grid[g], x)) expect[o.a][2 * g] += 1; if (cmp(x, grid[g])) expect[o.a][2 * g + 1] += 1; } }
+    else if (o.kind == 'M' || o.kind == 'R') { for (size_t g = 0; g < 2 * grid.size(); ++g) expect[o.a][g] += before[o.b][g]; if (o.kind == 'R') expect[o.b].assign(2 * grid.size(), 0.0); }
+    State* curp = cur.get(); QuantSys<Fam>* sp = &sys;
+    RunFn rf = [curp, sp, op](const std::vector<uint64_t>& tape, uint64_t fill) -> RunResult {
+      std::unique_ptr<State> s2(sp->clone(*curp)); Tape t; t.v = tape; t.set_fill(fill); RunResult r;
+      try { TapeScope sc(t); sp->apply(*s2, op, nullptr); r.canon = sp->canon(*s2); } catch (const std::exception& e) { r.failed = true; r.canon = e.what(); }
+      r.kinds = t.kinds; r.seg = t.seg; return r;
+    };
+    std::vector<Outcome> outs = enumerate_outcomes(rf, 64, cst);
+    std::vector<std::vector<double> > e(NS, std::vector<double>(2 * grid.size(), 0.0)); double mass = 0; size_t nd0 = outs.empty() ? 0 : outs[0].tape.size(); bool dep = false;
+    std::vector<std::unique_ptr<State> > after;
+    for (size_t k = 0; k < outs.size(); ++k) {
+      std::unique_ptr<State> s2(sys.clone(*cur)); Tape t; t.v = outs[k].tape; { TapeScope sc(t); sys.apply(*s2, op, nullptr); }
+      std::vector<std::vector<double> > r; ranks(*s2, r);
+      for (size_t sl = 0; sl < NS; ++sl) for (size_t g = 0; g < 2 * grid.size(); ++g) e[sl][g] += outs[k].prob * r[sl][g];
+      mass += outs[k].prob; if (outs[k].tape.size() != nd0) dep = true;
+      after.push_back(std::move(s2));
+    }
+    Ctx c(rep, sys.name(), hs);
+    c.near("probability-mass==1", mass, 1.0, 1e-12);
+    c.ok("flips-independent-of-outcomes", !dep, "the operation consumed a different number of draws on different outcomes");
+    bool ok = true;
+    for (size_t sl = 0; sl < NS && ok; ++sl) for (size_t g = 0; g < 2 * grid.size(); ++g) if (std::fabs(e[sl][g] - expect[sl][g]) > 1e-9 * (1 + std::fabs(expect[sl][g]))) {
+      c.fail("one-step-E[n*rank]==before+contribution", "slot " + str(sl) + " at " + Dom<T>::s(grid[g / 2]) + (g % 2 ? " (exclusive)" : " (inclusive)") + ": expectation over " + str(outs.size()) + " outcomes " + str(e[sl][g]) + " expected " + str(expect[sl][g])); ok = false; break; }
+    for (size_t k = 0; k < after.size(); ++k) { int a0 = asan_errors(); safe_check(sys, *after[k], c); if (asan_errors() != a0) c.fail("asan", "AddressSanitizer report"); }
+    rep.flush_ctx_fails(c.fails, sys.name(), hs);
+    ++steps; if (outs.size() > 1) ++coin_steps; max_outcomes = std::max<uint64_t>(max_outcomes, outs.size());
+    rep.transitions += outs.size(); rep.states += 1; rep.evaluations++;
+    // continue along the fixed schedule
+    uint64_t z = schedule * 0x9E3779B97F4A7C15ULL + i * 0xBF58476D1CE4E5B9ULL; z ^= z >> 29; z *= 0x94D049BB133111EBULL; z ^= z >> 32;
+    cur = std::move(after[z % after.size()]);
+  }
+  journal_clear();
+  rep.traces += steps; rep.count("martingale_steps_with_coin_outcomes", (double)coin_steps);
+  rep.scenarios.push_back(sys.name() + ": one-step checks=" + str(steps) + " of which with several outcomes=" + str(coin_steps) + " max outcomes of one step=" + str(max_outcomes) + " [martingale]");
+  rep.outcome(std::string(Fam::fam()) + "|martingale|" + (coin_steps ? "coins" : "nocoins"));
 }
 
 // (i) BFS over distribution-states: all update sequences over the domain up to max_n
@@ -116,18 +209,46 @@ template<class Fam> static void distinct_domain(QuantSys<Fam>& sys, int n, std::
 }
 
 template<class Fam>
-static void family_tasks(std::vector<Task>& tasks, const Config& cfg, const std::string& fam, Cfg base, const std::vector<Cfg>& other_cfgs, int bfs_n, int shape_n, int merge_n1, int merge_n2) {
+static void family_tasks(std::vector<Task>& tasks, const Config& cfg, const std::string& fam, Cfg base, const std::vector<Cfg>& other_cfgs, int bfs_n, int shape_n, int merge_n1, int merge_n2, int long_n) {
   typedef typename Fam::Item T;
   std::vector<std::string> vn; { std::vector<T> v = Dom<T>::values(); for (size_t i = 0; i < v.size(); ++i) vn.push_back(Dom<T>::s(v[i])); }
   std::string tag = fam + "/k" + str(base.k) + (fam.find("req") == 0 ? std::string(base.hra ? "/hra" : "/lra") + "/coin" + str(base.init_coin) : "");
-  { QuantSys<Fam> sys; sys.nm = tag + "/all-sequences"; sys.slot_cfgs.push_back(base); sys.light_check = true; sys.vals.resize(3); sys.add_update_ops(0, false);
+  { QuantSys<Fam> sys; sys.nm = tag + "/all-sequences"; sys.slot_cfgs.push_back(base); sys.light_check = true; sys.check_published = true; sys.vals.resize(3); sys.add_update_ops(0, false);
     Task t; t.name = sys.nm; t.fn = [sys, bfs_n, &cfg](Report& rep) { dist_bfs<Fam>(sys, bfs_n, rep, cfg); }; tasks.push_back(t); }
   const char* shapes[] = {"sorted", "reversed", "zigzag", "organ", "constant", "mixed"};
   for (int si = 0; si < 6; ++si) {
-    QuantSys<Fam> sys; sys.nm = tag + "/shape-" + shapes[si] + "/n" + str(shape_n); sys.slot_cfgs.push_back(base); sys.light_check = true;
+    QuantSys<Fam> sys; sys.nm = tag + "/shape-" + shapes[si] + "/n" + str(shape_n); sys.slot_cfgs.push_back(base); sys.light_check = true; sys.check_published = true;
     std::vector<std::string> dn; distinct_domain(sys, shape_n, dn); sys.add_update_ops(0, false);
     std::vector<std::string> seq = shape(shapes[si], shape_n, 0, dn);
     Task t; t.name = sys.nm; t.fn = [sys, seq, &cfg](Report& rep) { fixed_history<Fam>(sys, seq, 0, 1, rep, cfg); }; tasks.push_back(t);
+  }
+  // long streams with the complete coin tree (live states): far enough for the sketch to grow several levels
+  for (int si = 0; si < 2; ++si) {
+    QuantSys<Fam> sys; const int ln = long_n; sys.nm = tag + "/long-" + (si ? "mixed" : "sorted") + "/n" + str(ln); sys.slot_cfgs.push_back(base); sys.light_check = true; sys.check_published = true;
+    std::vector<std::string> dn; distinct_domain(sys, ln, dn); sys.add_update_ops(0, false);
+    std::vector<std::string> seq = shape(si ? "mixed" : "sorted", ln, 0, dn);
+    Task t; t.name = sys.nm; t.fn = [sys, seq, &cfg](Report& rep) { live_history<Fam>(sys, seq, 0, 10, rep, cfg); }; tasks.push_back(t);
+  }
+  // one-step martingale checks along long streams and merge chains under several fixed coin schedules.
+  // Not for REQ: its odd-numbered compactions reuse the complement of the previous coin, which is unbiased over the pair of
+  // compactions but not step by step; REQ gets the complete tree over a small value domain instead (below).
+  const bool is_req = fam.find("req") == 0;
+  if (is_req) for (int si = 0; si < 3; ++si) {
+    const char* shp[] = {"sorted", "zigzag", "mixed"};
+    QuantSys<Fam> sys; const int ln = cfg.quick() ? 460 : 900; sys.nm = tag + "/long-smalldomain-" + shp[si] + "/n" + str(ln); sys.slot_cfgs.push_back(base); sys.light_check = true; sys.check_published = true;
+    std::vector<std::string> dn; distinct_domain(sys, 6, dn); sys.add_update_ops(0, false);
+    std::vector<int> ix = shape_idx(shp[si], ln); std::vector<std::string> seq; for (int i = 0; i < ln; ++i) seq.push_back("U0:" + dn[(size_t)((long long)ix[i] * 6 / ln)]);
+    Task t; t.name = sys.nm; t.fn = [sys, seq, &cfg](Report& rep) { live_history<Fam>(sys, seq, 0, 20, rep, cfg); }; tasks.push_back(t);
+  }
+  for (uint64_t sch = 1; !is_req && sch <= (cfg.quick() ? 2 : 6); ++sch) for (int si = 0; si < 2; ++si) {
+    QuantSys<Fam> sys; const int mn = long_n * 5; sys.nm = tag + "/martingale-" + (si ? "mixed" : "zigzag") + "/n" + str(mn) + "/schedule" + str(sch);
+    sys.slot_cfgs.push_back(base); sys.slot_cfgs.push_back(other_cfgs.back()); sys.light_check = true; sys.check_published = true;
+    std::vector<std::string> dn; distinct_domain(sys, mn, dn); sys.add_update_ops(0, false); sys.add_update_ops(1, false); sys.add_slot_merge_ops(0, 1); sys.add_slot_merge_ops(1, 0);
+    std::vector<int> ix = shape_idx(si ? "mixed" : "zigzag", mn); std::vector<std::string> seq;
+    const bool classic = fam.find("classic") == 0;   // a classic merge of two deep sketches has thousands of outcomes: merge early only
+    for (int i = 0; i < mn; ++i) { int slot = (i / 37) % 2; seq.push_back("U" + str(slot) + ":" + dn[ix[i]]);
+      if (classic ? (i == 45 || i == 120) : (i % 211 == 210)) seq.push_back((classic ? i == 45 : i % 422 == 210) ? "M01" : "R10"); }
+    Task t; t.name = sys.nm; t.fn = [sys, seq, sch, &cfg](Report& rep) { martingale_history<Fam>(sys, seq, sch, rep, cfg); }; tasks.push_back(t);
   }
   // merge trees: A(n1) u B(n2) both directions and by rvalue; unequal k; (AuB)uC vs Au(BuC)
   for (size_t oc = 0; oc < other_cfgs.size(); ++oc) {
@@ -135,7 +256,7 @@ static void family_tasks(std::vector<Task>& tasks, const Config& cfg, const std:
     for (int a = 0; a < 4; ++a) for (int b = 0; b < 4; ++b) {
       if (cfg.quick() && (a + b) % 2 == 1 && oc > 0) continue;
       for (int form = 0; form < 3; ++form) {
-        QuantSys<Fam> sys; sys.slot_cfgs.push_back(base); sys.slot_cfgs.push_back(other_cfgs[oc]); sys.light_check = true;
+        QuantSys<Fam> sys; sys.slot_cfgs.push_back(base); sys.slot_cfgs.push_back(other_cfgs[oc]); sys.light_check = true; sys.check_published = true;
         std::vector<std::string> vn; distinct_domain(sys, 2 * std::max(n1s[a], n1s[b]) + 6, vn);   // distinct values: A gets even indices, B odd ones
         sys.add_update_ops(0, false); sys.add_update_ops(1, false); sys.add_slot_merge_ops(0, 1); sys.add_slot_merge_ops(1, 0);
         sys.nm = tag + "/merge/k" + str(other_cfgs[oc].k) + "/n" + str(n1s[a]) + "+" + str(n1s[b]) + (form == 0 ? "/A.merge(B)" : form == 1 ? "/A.merge(move(B))" : "/B.merge(A)");
@@ -150,7 +271,7 @@ static void family_tasks(std::vector<Task>& tasks, const Config& cfg, const std:
     }
     // three-way: (AuB)uC and Au(BuC)
     for (int assoc = 0; assoc < 2; ++assoc) {
-      QuantSys<Fam> sys; sys.slot_cfgs.push_back(base); sys.slot_cfgs.push_back(other_cfgs[oc]); sys.slot_cfgs.push_back(base); sys.light_check = true;
+      QuantSys<Fam> sys; sys.slot_cfgs.push_back(base); sys.slot_cfgs.push_back(other_cfgs[oc]); sys.slot_cfgs.push_back(base); sys.light_check = true; sys.check_published = true;
       std::vector<std::string> vn; distinct_domain(sys, 3 * (merge_n2 + 3), vn);
       for (int s = 0; s < 3; ++s) sys.add_update_ops(s, false);
       sys.add_slot_merge_ops(0, 1); sys.add_slot_merge_ops(0, 2); sys.add_slot_merge_ops(1, 2);
@@ -262,15 +383,29 @@ int main(int argc, char** argv) {
       rep.sets("rule", "for every explored history the complete coin tree is enumerated and E[n*rank(v)] is compared with the true count for every grid value and both criteria; distinct = distinct (family, leaves, flips) tag");
     }; tasks.push_back(t); }
   { typedef KllFam<float, std::less<float> > F; Cfg c; c.k = 8; std::vector<Cfg> oc; oc.push_back(c); Cfg c2; c2.k = 9; oc.push_back(c2); c2.k = 16; if (!q) oc.push_back(c2);
-    family_tasks<F>(tasks, cfg, "kll-float", c, oc, q ? 13 : 19, q ? 40 : 64, 9, q ? 20 : 27); }
+    family_tasks<F>(tasks, cfg, "kll-float", c, oc, q ? 13 : 19, q ? 40 : 64, 9, q ? 20 : 27, q ? 90 : 160); }
+  { typedef KllFam<float, std::less<float> > F;   // C(k small) merged into B(k large), then B into A(k large), and the reverse nesting
+    for (int v = 0; v < 4; ++v) {
+      QuantSys<F> sys; Cfg big; big.k = v < 2 ? 16 : 32; Cfg small; small.k = v % 2 ? 9 : 8;
+      sys.slot_cfgs.push_back(big); sys.slot_cfgs.push_back(big); sys.slot_cfgs.push_back(small); sys.light_check = true; sys.check_published = true;
+      std::vector<std::string> vn; distinct_domain(sys, 150, vn);
+      for (int sl = 0; sl < 3; ++sl) sys.add_update_ops(sl, false);
+      sys.add_slot_merge_ops(0, 1); sys.add_slot_merge_ops(1, 2); sys.add_slot_merge_ops(0, 2);
+      sys.nm = "kll-float/mixedk-chain/k" + str(big.k) + "<-k" + str(big.k) + "<-k" + str(small.k);
+      std::vector<std::string> seq = shape("mixed", 20, 0, vn, 0, 3), s2 = shape("zigzag", 24, 1, vn, 1, 3), s3 = shape("sorted", 30, 2, vn, 2, 3);
+      seq.insert(seq.end(), s2.begin(), s2.end()); seq.insert(seq.end(), s3.begin(), s3.end());
+      seq.push_back("M12"); seq.push_back(v % 2 ? "R01" : "M01"); seq.push_back("U0:" + vn[149]);
+      size_t from = seq.size() - 3;
+      Task t; t.name = sys.nm; t.fn = [sys, seq, from, &cfg](Report& rep) { fixed_history<F>(sys, seq, 0, from, rep, cfg); }; tasks.push_back(t);
+    } }
   for (int h = 0; h < 2; ++h) for (int ic = 0; ic < 2; ++ic) { typedef ReqFam<float, std::less<float> > F; if (q && ic == 1) continue;
     Cfg c; c.k = 4; c.hra = h == 1; c.init_coin = ic; std::vector<Cfg> oc; oc.push_back(c); Cfg c2 = c; c2.k = 6; if (!q) oc.push_back(c2);
-    family_tasks<F>(tasks, cfg, "req-float", c, oc, q ? 26 : 30, q ? 160 : 320, 24, q ? 30 : 50); }
+    family_tasks<F>(tasks, cfg, "req-float", c, oc, q ? 26 : 30, q ? 160 : 320, 24, q ? 30 : 50, q ? 200 : 420); }
   { typedef ClassicFam<int, std::less<int> > F; Cfg c; c.k = 2; std::vector<Cfg> oc; oc.push_back(c); Cfg c2; c2.k = 4; oc.push_back(c2); c2.k = 8; if (!q) oc.push_back(c2);
-    family_tasks<F>(tasks, cfg, "classic-int", c, oc, q ? 10 : 14, q ? 30 : 48, 5, q ? 9 : 13);
+    family_tasks<F>(tasks, cfg, "classic-int", c, oc, q ? 10 : 14, q ? 30 : 48, 5, q ? 9 : 13, q ? 40 : 60);
     // larger k merged into smaller k exercises the down-sampling merge (raw uniform offset): base k=4 with k=2 operand and vice versa
     Cfg c4; c4.k = 4; std::vector<Cfg> oc4; oc4.push_back(c);
-    family_tasks<F>(tasks, cfg, "classic-int", c4, oc4, q ? 8 : 12, q ? 24 : 40, 9, q ? 12 : 17); }
+    family_tasks<F>(tasks, cfg, "classic-int", c4, oc4, q ? 8 : 12, q ? 24 : 40, 9, q ? 12 : 17, q ? 60 : 90); }
   // long streams
   const int S = q ? 48 : 512, N = q ? 20000 : 100000;
   for (int ki = 0; ki < 3; ++ki) {
